@@ -1,4 +1,5 @@
 import ACModel.Props.C04
+import ACModel.Proofs.Frame
 /-
   C05 — Unseen data is given fitted labels or rejected, never passed through
 
@@ -145,6 +146,190 @@ theorem qual_no_leak (f : String) (g : GL) (table : LabelTable) (strNan strDefau
       simp only [qualCell, cellAllowed, hlab, Option.getD_some]
       exact mem_table_of_aget hlab
 
+/-! ## The whole frame: `transform` rejects with AssertionError only, and never lets a raw value through -/
+
+/-- the fitted state is ready for `transform`: every typed feature has its `values_orders` entry
+    and its labels (quantitative ones in the shape `QuantReady`, qualitative ones with a label for
+    every known value), a feature has one type, typed features are fitted features.  These are facts
+    `fit` establishes (C08); the driver evaluates them on the implementation's state. -/
+structure Ready (s : Disc) : Prop where
+  quant : ∀ f ∈ s.quant, ∃ g t, aget? s.orders f = some g ∧ aget? s.lpv f = some t ∧ QuantReady g t s.strNan
+  qual : ∀ f ∈ s.qual, ∃ g t, aget? s.orders f = some g ∧ aget? s.lpv f = some t ∧ ∀ v ∈ g.values, (aget? t v).isSome
+  fd : ∀ fd ∈ s.featDropna, (aget? s.lpv fd.1).isSome = true
+  typed : ∀ f ∈ s.qual, f ∉ s.quant
+  sub : ∀ f, f ∈ s.quant ∨ f ∈ s.qual → f ∈ s.features
+
+open FrameLemmas in
+/-- **`transform` never fails with anything but an AssertionError**: the missing-columns one, or
+    the one naming a fitted feature (unseen category without default group, missing value where
+    none was seen at fit) — on every frame whose quantitative columns hold numbers or missing
+    values, for every ready fitted state. -/
+theorem transform_rejection_is_assertion (s : Disc) (hs : s.Shape) (hr : Ready s) (x0 x : Frame)
+    (hc : s.castFeatures x0 = .ok x)
+    (hnum : ∀ f ∈ s.quant, ∀ c, aget? x f = some c → c.any cellIsStr = false)
+    (e : Err) (h : s.transform x0 = .error e) :
+    e = Err.assertion "columns are missing" ∨ ∃ f ∈ s.features, e = Err.assertion f := by
+  rcases transform_error_cases s hs hr.typed x0 x hc e h with h0 | ⟨hcols, h1 | h2 | h3⟩
+  · exact Or.inl h0
+  · right
+    obtain ⟨f, hf, hcase⟩ := h1
+    refine ⟨f, hr.sub f (Or.inl hf), ?_⟩
+    rcases hcase with ⟨c, hcx, hu⟩ | ⟨hcx, _⟩
+    · obtain ⟨g, t, ho, hl, hq⟩ := hr.quant f hf
+      unfold qUpd at hu
+      simp only [ho, hl] at hu
+      rcases quant_col_outcome f g t s.strNan hq c (hnum f hf c hcx) with ⟨he, _, _⟩ | ⟨hok, _⟩
+      · rw [he] at hu; injection hu with hu; exact hu.symm
+      · rw [hok] at hu; cases hu
+    · obtain ⟨c, hc'⟩ := hcols f (hr.sub f (Or.inl hf))
+      rw [hcx] at hc'; cases hc'
+  · right
+    obtain ⟨f, hf, hcase⟩ := h2
+    refine ⟨f, hr.sub f (Or.inr hf), ?_⟩
+    rcases hcase with ⟨c, _, hu⟩ | ⟨hcx, _⟩
+    · obtain ⟨g, t, ho, hl, _⟩ := hr.qual f hf
+      unfold lUpd at hu
+      simp only [ho, hl] at hu
+      rcases qual_col_outcome f g t s.strNan s.strDefault c with he | ⟨out, hok⟩
+      · rw [he] at hu; injection hu with hu; exact hu.symm
+      · rw [hok] at hu; cases hu
+    · obtain ⟨c, hc'⟩ := hcols f (hr.sub f (Or.inr hf))
+      rw [hcx] at hc'; cases hc'
+  · exfalso
+    obtain ⟨fd, hfd, hcase⟩ := h3
+    obtain ⟨t, ht⟩ := Option.isSome_iff_exists.1 (hr.fd fd hfd)
+    rcases hcase with ⟨c, hu⟩ | hm
+    · unfold nUpd at hu
+      by_cases hb : fd.2 = true
+      · simp [hb] at hu
+      · simp only [hb, Bool.false_eq_true, if_false, ht] at hu
+        cases hn : nanVal s.strNan with
+        | none => simp [hn] at hu
+        | some n =>
+          simp only [hn] at hu
+          cases hl : aget? t n <;> simp [hl] at hu
+    · unfold nMiss at hm
+      by_cases hb : fd.2 = true
+      · simp [hb] at hm
+      · simp [hb, ht] at hm
+
+theorem mem_nanfix (lab : Val) (c2 : Col) (c : Cell)
+    (hc : c ∈ c2.map (fun cell => if cell = some lab then none else cell)) (hne : c ≠ none) : c ∈ c2 := by
+  obtain ⟨d, hd, rfl⟩ := List.mem_map.1 hc
+  by_cases hdd : d = some lab
+  · simp [hdd] at hne
+  · simpa [hdd] using hd
+
+/-- the missing-value step only turns cells into missing ones -/
+theorem nUpd_sub (s : Disc) (fd : String × Bool) (c2 c' : Col) (h : nUpd s fd c2 = .ok c') :
+    ∀ c ∈ c', c ≠ none → c ∈ c2 := by
+  unfold nUpd at h
+  by_cases hb : fd.2 = true
+  · simp only [hb, if_true] at h
+    injection h with h; subst h; intro c hc _; exact hc
+  · simp only [hb, Bool.false_eq_true, if_false] at h
+    cases hl : aget? s.lpv fd.1 with
+    | none => rw [hl] at h; cases h
+    | some t =>
+      rw [hl] at h
+      simp only [] at h
+      cases hn : nanVal s.strNan with
+      | none => rw [hn] at h; simp only [] at h; injection h with h; subst h; intro c hc _; exact hc
+      | some n =>
+        rw [hn] at h
+        simp only [] at h
+        cases hlab : aget? t n with
+        | none => rw [hlab] at h; simp only [] at h; injection h with h; subst h; intro c hc _; exact hc
+        | some lab =>
+          rw [hlab] at h
+          simp only [] at h
+          injection h with h; subst h
+          intro c hc hne
+          exact mem_nanfix lab c2 c hc hne
+
+open FrameLemmas in
+/-- **No raw value leaks through a qualitative feature.**  In every accepted frame, every
+    non-missing cell of a fitted qualitative column is a label of that feature's label table. -/
+theorem transform_qual_labels_only (s : Disc) (hs : s.Shape) (hr : Ready s) (x0 x out : Frame)
+    (hc : s.castFeatures x0 = .ok x) (h : s.transform x0 = .ok out) (f : String) (hf : f ∈ s.qual) :
+    ∃ t, aget? s.lpv f = some t ∧ ∀ col, aget? out f = some col → ∀ c ∈ col, c ≠ none → cellAllowed t true c = true := by
+  obtain ⟨g, t, ho, hl, htab⟩ := hr.qual f hf
+  refine ⟨t, hl, ?_⟩
+  intro col hcol c hcm hne
+  obtain ⟨_, hspec⟩ := transform_spec s hs x0 x out hc h
+  cases hx : aget? x f with
+  | none => rw [(hspec f).2 hx] at hcol; cases hcol
+  | some cin =>
+    obtain ⟨c', hct, ho'⟩ := (hspec f).1 cin hx
+    rw [ho'] at hcol; injection hcol with hcol; subst hcol
+    unfold colTransform at hct
+    simp only [hr.typed f hf, if_false, Except.bind, hf, if_true] at hct
+    cases hlu : lUpd s f cin with
+    | error e => rw [hlu] at hct; cases hct
+    | ok c2 =>
+      rw [hlu] at hct
+      simp only [] at hct
+      have hc2 : ∀ c ∈ c2, c ≠ none → cellAllowed t true c = true := by
+        unfold lUpd at hlu
+        simp only [ho, hl] at hlu
+        exact qual_no_leak f g t s.strNan s.strDefault cin c2 htab hlu
+      have hsub : ∀ c ∈ c', c ≠ none → c ∈ c2 := by
+        cases hfd : s.featDropna.find? (fun fd => fd.1 = f) with
+        | none => rw [hfd] at hct; simp only [] at hct; injection hct with hct; subst hct; intro c hc _; exact hc
+        | some fd =>
+          rw [hfd] at hct
+          simp only [] at hct
+          exact nUpd_sub s fd c2 c' hct
+      exact hc2 c (hsub c hcm hne) hne
+
+open FrameLemmas in
+/-- **No raw value leaks through a quantitative feature.**  In every accepted frame (numbers or
+    missing values in the quantitative columns), every cell of a fitted quantitative column is a
+    label of that feature's label table, or missing, or the output designated for missing values. -/
+theorem transform_quant_labels_only (s : Disc) (hs : s.Shape) (hr : Ready s) (x0 x out : Frame)
+    (hc : s.castFeatures x0 = .ok x) (h : s.transform x0 = .ok out) (f : String) (hf : f ∈ s.quant)
+    (hnum : ∀ c, aget? x f = some c → c.any cellIsStr = false) :
+    ∃ g t, aget? s.orders f = some g ∧ aget? s.lpv f = some t ∧ ∀ col, aget? out f = some col →
+      ∀ c ∈ col, c = none ∨ cellAllowed t true c = true ∨ c = nanCellOut g t s.strNan := by
+  obtain ⟨g, t, ho, hl, hq⟩ := hr.quant f hf
+  refine ⟨g, t, ho, hl, ?_⟩
+  intro col hcol c hcm
+  obtain ⟨_, hspec⟩ := transform_spec s hs x0 x out hc h
+  cases hx : aget? x f with
+  | none => rw [(hspec f).2 hx] at hcol; cases hcol
+  | some cin =>
+    obtain ⟨c', hct, ho'⟩ := (hspec f).1 cin hx
+    rw [ho'] at hcol; injection hcol with hcol; subst hcol
+    have hnq : f ∉ s.qual := fun hq' => hr.typed f hq' hf
+    unfold colTransform at hct
+    simp only [hf, if_true, hnq, if_false] at hct
+    cases hqu : qUpd s f cin with
+    | error e => rw [hqu] at hct; cases hct
+    | ok c1 =>
+      rw [hqu] at hct
+      simp only [Except.bind] at hct
+      have hc1 : ∀ c ∈ c1, c = none ∨ cellAllowed t true c = true ∨ c = nanCellOut g t s.strNan := by
+        unfold qUpd at hqu
+        simp only [ho, hl] at hqu
+        rcases quant_col_outcome f g t s.strNan hq cin (hnum cin hx) with ⟨he, _, _⟩ | ⟨hok, hall⟩
+        · rw [he] at hqu; cases hqu
+        · rw [hok] at hqu; injection hqu with hqu; subst hqu
+          intro c hc
+          obtain ⟨d, hd, rfl⟩ := List.mem_map.1 hc
+          cases d with
+          | none => exact Or.inr (Or.inr rfl)
+          | some v => exact Or.inr (Or.inl (hall (some v) hd (by simp)))
+      by_cases hne : c = none
+      · exact Or.inl hne
+      · have hsub : ∀ c ∈ c', c ≠ none → c ∈ c1 := by
+          cases hfd : s.featDropna.find? (fun fd => fd.1 = f) with
+          | none => rw [hfd] at hct; simp only [] at hct; injection hct with hct; subst hct; intro c hc _; exact hc
+          | some fd =>
+            rw [hfd] at hct
+            simp only [] at hct
+            exact nUpd_sub s fd c1 c' hct
+        exact hc1 c (hsub c hcm hne)
+
 /-! ## Non-vacuity -/
 private def g1 : GL := GL.ofList [.num 1, .num 5, .inf]
 private def t1 : LabelTable := [(.num 1, .str "a"), (.num 5, .str "b"), (.inf, .str "c")]
@@ -153,5 +338,34 @@ example : transformQuantCol "f" g1 t1 (some "__NAN__") [some (.num 7), none] = .
   decide
 example : transformQualCol "f" (GL.ofList [.str "A", .str "__OTHER__"]) [(.str "A", .str "A"), (.str "__OTHER__", .str "__OTHER__")]
     (some "__NAN__") (some "__OTHER__") [some (.str "zz")] = .ok [some (.str "__OTHER__")] := by decide
+
+/-- a fitted state (labels as `fit` computes them) that is ready for `transform` -/
+def exReady : Disc :=
+  { features := ["q", "k"], quant := ["q"], qual := ["k"],
+    orders := [("q", g1), ("k", GL.ofList [.str "a", .str "b"])],
+    outFloat := false, strNan := some "__NAN__", strDefault := some "__OTHER__", dropna := true,
+    featDropna := [("q", true), ("k", true)],
+    lpv := [("q", t1), ("k", [(.str "a", .str "a"), (.str "b", .str "b")])], casting := [("q", ["q"]), ("k", ["k"])] }
+
+example : Ready exReady := by
+  refine ⟨?_, ?_, ?_, ?_, ?_⟩
+  · intro f hf
+    have : f = "q" := by simpa [exReady] using hf
+    subst this
+    exact ⟨g1, t1, by decide, by decide, ⟨by decide, by decide, by decide⟩⟩
+  · intro f hf
+    have : f = "k" := by simpa [exReady] using hf
+    subst this
+    exact ⟨GL.ofList [.str "a", .str "b"], [(.str "a", .str "a"), (.str "b", .str "b")], by decide, by decide, by decide⟩
+  · decide
+  · decide
+  · intro f hf
+    have : f = "q" ∨ f = "k" := by simpa [exReady] using hf
+    rcases this with rfl | rfl <;> decide
+example : exReady.Shape := ⟨by decide, by decide, by decide⟩
+-- an unseen category is rejected with the AssertionError naming the feature; a frame of known values is accepted
+example : exReady.transform [("q", [some (.num 3)]), ("k", [some (.str "zzz")])] = .error (.assertion "k") := by decide +kernel
+example : exReady.transform [("q", [some (.num 3), some (.num 99)]), ("k", [some (.str "b"), some (.str "a")])] =
+    .ok [("q", [some (.str "b"), some (.str "c")]), ("k", [some (.str "b"), some (.str "a")])] := by decide +kernel
 
 end C05
